@@ -47,11 +47,11 @@ def default_menu(fx, tier):
 def envs(fx, tier="thorough"):
     fl = gen.Flat(fx["shape"])
     n = fl.n
-    e1 = dict(sel=[1] * n, rank=[0] * n, util=[Fraction(1)] * n, rng=[Fraction(0)] * 4)
+    e1 = dict(sel=[1] * n, rank=[0] * n, util=[Fraction(1)] * n, rng=[Fraction(0)] * 24)
     sel2 = [max(1, fl.st(s)["width"]) for s in range(1, n + 1)]
     rank2 = [(s % 2) for s in range(1, n + 1)]
     util2 = [Fraction(1 + (s * 7) % 3, 1 + (s % 2)) for s in range(1, n + 1)]
-    e2 = dict(sel=sel2, rank=rank2, util=util2, rng=[Fraction(1, 2)] * 4)
+    e2 = dict(sel=sel2, rank=rank2, util=util2, rng=[Fraction(1, 2)] * 24)
     out = [e2] if tier == "quick" else [e1, e2]
     if any(r["strat"] in ("Utilitarian", "Random") for r in fl.tab):
         # utility / rank / generator-output patterns: ties, zeros (never a whole top rank), ranks, outputs on and next to
@@ -76,7 +76,7 @@ def envs(fx, tier="thorough"):
                     if all(util[k - 1] == 0 for k in tops):
                         util[tops[-1] - 1] = Fraction(1)
             r = rs[i % len(rs)]
-            out.append(dict(sel=sel2, rank=rank, util=util, rng=[r] * 4))
+            out.append(dict(sel=sel2, rank=rank, util=util, rng=[r] * 24))       # every draw of a step sees the same output
     return out
 
 
